@@ -20,7 +20,7 @@ RULE = ('pool of 22 texts chosen to leave lexer/ply state dirty (valid programs,
         '(i) exhaustively all call sequences of length <= 2 (quick) / <= 3 (thorough) in one process, every result '
         'compared with the fresh-process value; (ii) Hypothesis-generated long histories (<= 200 steps) that also '
         'interleave pretty/minify printing and bare Lexer iteration; (iii) thread pools of 2-16 threads parsing the '
-        'pool concurrently under sys.setswitchinterval in {1e-6, 1e-5, 1e-4, 5e-3}. non-trivial = a history in which '
+        'pool concurrently (through parse() and through the es5 helper object) under sys.setswitchinterval in {1e-6, 1e-5, 1e-4, 5e-3}. non-trivial = a history in which '
         'a failing parse or a different comment flag immediately precedes the compared parse; distinct by history')
 ASSUMPTIONS = ['thread interleavings are only sampled (randomised stress, the harness does not own the schedule)',
                'expected outcomes come from the code under test in a fresh interpreter: this check decides history '
@@ -66,9 +66,11 @@ def set_root(root):
 
 OUTCOME_CODE = r'''
 import json, sys
-def outcome(text, wc, between=None):
-    from calmjs.parse.parsers.es5 import parse, Parser
+def outcome(text, wc, between=None, parse=None):
+    from calmjs.parse.parsers.es5 import Parser
     from calmjs.parse.walkers import ReprWalker, Walker
+    if parse is None:
+        from calmjs.parse.parsers.es5 import parse
     try:
         if between is None:
             t = parse(text, with_comments=wc)
@@ -108,16 +110,10 @@ def outcome(text, wc, via='parse', between=None):
         return _ons['outcome'](text, wc, between)
     if via == 'factory':
         import calmjs.parse
-        from calmjs.parse.parsers import es5 as pmod
-        real = pmod.parse
-        try:
-            # the same outcome function, with the helper object standing in for parse()
-            # the optional argument is left out when it has its default value, as callers do
-            pmod.parse = lambda text, with_comments=False: (
-                calmjs.parse.es5(text, with_comments=True) if with_comments else calmjs.parse.es5(text))
-            return _ons['outcome'](text, wc)
-        finally:
-            pmod.parse = real
+        # the same outcome function, with the helper object standing in for parse(); the optional
+        # argument is left out when it has its default value, as callers do
+        return _ons['outcome'](text, wc, None, lambda text, with_comments=False: (
+            calmjs.parse.es5(text, with_comments=True) if with_comments else calmjs.parse.es5(text)))
     return _ons['outcome'](text, wc)
 
 
@@ -228,7 +224,8 @@ def run_threads(acc, opens, exp, nthreads, interval, parses, seed):
         rnd = random.Random(seed * 1000 + tid)  # schedule of calls per thread: harness-side only, not in a property
         for _ in range(per):
             i, wc = CALLS[rnd.randrange(len(CALLS))]
-            got = outcome(TEXTS[i], wc)
+            # a third of the calls go through the calmjs.parse.es5 helper object
+            got = outcome(TEXTS[i], wc, 'factory' if rnd.randrange(3) == 0 else 'parse')
             if got != exp[(i, wc)]:
                 with lock:
                     failures.append((i, wc, got))
